@@ -32,20 +32,25 @@ TricQuatsQuick == {<<1, 1, 1, 0>>, <<1, 1, -1, 1>>, <<2, 1, 0, 0>>, <<1, 0, -2, 
                    <<1, -1, 0, 2>>, <<2, 1, 1, 1>>, <<1, 2, -1, 1>>}
 TricQuatsAll == CanonQuats(2, {3, 5, 6, 7})
 
+ClassQuats == {<<1, 0, 0, 0>>, <<1, 1, 0, 0>>, <<0, 0, 0, 1>>, <<1, 1, 1, 1>>, <<1, 0, 0, 1>>}
 Init == \/ c \in {[kind |-> "seed", b |-> b, q |-> q] : b \in SymBasis, q \in SmallQuats}
         \/ c \in {[kind |-> "seedt", n |-> n] : n \in 1..NTric}
+        \/ c \in {[kind |-> "seedc", n |-> 100 + k] : k \in 1..NClass}
 Next == \/ /\ c.kind = "seed"
            /\ \/ c' = [kind |-> "single", b |-> c.b, q |-> c.q]
               \/ c' \in {[kind |-> "pair", b |-> c.b, q |-> c.q, q2 |-> q2] : q2 \in PairQ2}
         \/ /\ c.kind = "seedt"
            /\ c' \in {[kind |-> "tric", n |-> c.n, q |-> q] : q \in TricQuats}
+        \* symmetry-class tensors in their standard frames: the identity, axis-aligned turns and generic rotations
+        \/ /\ c.kind = "seedc"
+           /\ c' \in {[kind |-> "tric", n |-> c.n, q |-> q] : q \in ClassQuats \cup TricQuatsQuick}
 
 RotationsAreRotations == /\ c.kind = "seed" => IsRotation(QuatRot(c.q))
                          /\ c.kind = "seedt" => \A q \in TricQuats : IsRotation(QuatRot(q))
 CountLemma == Cardinality(SmallQuats) = 40 /\ Cardinality(OctaQuats) = 24
 
-Tof == IF c.kind = "tric" THEN C4(Tric(c.n)) ELSE C4(BasisMat6(c.b))
-RotationLaw == (c.kind = "single" \/ (c.kind = "tric" /\ c.n <= 21)) =>
+Tof == IF c.kind = "tric" THEN C4(TricX(c.n)) ELSE C4(BasisMat6(c.b))
+RotationLaw == (c.kind = "single" \/ (c.kind = "tric" /\ (c.n <= 21 \/ c.n > 100))) =>
     LET T == Tof R == MEval(QuatRot(c.q)) IN TRotate(T, R) = TDirect(T, R)
 NormPreserved == (c.kind = "single" \/ (c.kind = "tric" /\ QuatNorm2(c.q) \in {1, 2, 3, 4})) =>
     LET T == Tof R == MEval(QuatRot(c.q)) IN TFrob2D(TRotate(T, R), 81) = TFrob2(T)
@@ -57,7 +62,7 @@ GroupAction == c.kind = "pair" =>
     /\ TRotate(TR, MEval(MT(R1))) = T
     /\ IsRotation(MMul(R2, R1))
 TricVectorNorm == (c.kind = "tric" /\ QuatNorm2(c.q) \in {1, 2, 3, 4}) =>
-    LET M == Tric(c.n) TR == TRotate(C4(M), MEval(QuatRot(c.q))) IN
+    LET M == TricX(c.n) TR == TRotate(C4(M), MEval(QuatRot(c.q))) IN
     XNorm2D(Mat2Vec(Mat6(TR)), 81) = XNorm2(Mat2Vec(M))
 
 Expected ==
@@ -67,7 +72,7 @@ Expected ==
     ELSE IF c.kind = "pair"
     THEN [kind |-> "pair", b |-> c.b, q |-> c.q, q2 |-> c.q2, R1 |-> MatToSeq(QuatRot(c.q)),
           R2 |-> MatToSeq(QuatRot(c.q2)), R21 |-> MatToSeq(MMul(QuatRot(c.q2), QuatRot(c.q)))]
-    ELSE [kind |-> "tric", n |-> c.n, q |-> c.q, M |-> Mat6ToSeq(Tric(c.n)), R |-> MatToSeq(QuatRot(c.q)),
+    ELSE [kind |-> "tric", n |-> c.n, q |-> c.q, M |-> Mat6ToSeq(TricX(c.n)), R |-> MatToSeq(QuatRot(c.q)),
           T |-> TensorSeq(TRotate(Tof, MEval(QuatRot(c.q))))]
-Emit == c.kind \in {"seed", "seedt"} \/ PrintT(<<"CASE", ToJson(Expected)>>)
+Emit == c.kind \in {"seed", "seedt", "seedc"} \/ PrintT(<<"CASE", ToJson(Expected)>>)
 =============================================================================
